@@ -138,7 +138,10 @@ def gen_history(rng):
             req += [f for f in files if rng.random() < 0.15 and f not in req]
             cand = sorted(uni.closure(req))
             fail = [o for o in cand if rng.random() < rng.choice([0, 0, 0.3])]
-            steps.append({"op": "transfer", "req": req, "shallow": shallow, "fail": fail, "handle": rng.randrange(2)})
+            # some of the failing uploads fail because the source object (a file or a directory object) vanishes between
+            # the status query and its copy (a concurrent collection of the local cache); it is back for the next step
+            vanish = [o for o in fail if rng.random() < 0.4]
+            steps.append({"op": "transfer", "req": req, "shallow": shallow, "fail": fail, "vanish": vanish, "handle": rng.randrange(2)})
         elif r < 0.6:
             steps.append({"op": "delete", "dirs": [t for t in trees if rng.random() < 0.4], "files": [f for f in files if rng.random() < 0.3],
                           "keep_closed": rng.random() < 0.5})
@@ -196,13 +199,18 @@ def check_history(ctx, h, uni):
             idx_before = stores.index_dump(idx)
             ctx.count("step:" + st["op"])
             if st["op"] == "transfer":
-                faults = stores.Faults(dest, st["fail"], on_event=lambda o: ever.add(o) if o in stores.listing_of(dest.path) else None)
+                faults = stores.Faults(dest, st["fail"], on_event=lambda o: ever.add(o) if o in stores.listing_of(dest.path) else None,
+                                       vanish=st.get("vanish", ()))
 
                 def f():
                     with faults.active():
                         return transfer(src, dest, {stores.hi(o) for o in st["req"]}, dest_index=idx, shallow=st["shallow"])
 
                 kind, res = safe_call(f, expected=(FileNotFoundError,))
+                gone = [o for o in st.get("vanish", ()) if o not in stores.listing_of(src.path)]
+                if gone:
+                    ctx.count("step:transfer with a vanishing source object" + (" (directory object)" if any(o.endswith(".dir") for o in gone) else ""))
+                    stores.populate(src, uni, gone)
                 obs = {"dest": stores.listing_of(dest.path), "index": stores.index_dump(idx)}
                 if kind == "ok":
                     obs.update(transferred=stores.vals(res.transferred), failed=stores.vals(res.failed))
@@ -255,8 +263,8 @@ def check_history(ctx, h, uni):
                 ok = x in ever or any(d in ever and x in uni.listing(d) for d in uni.trees)
                 ctx.oracle(ok, case, {"why": "the remote index holds an identifier that was never delivered nor listed by a delivered directory",
                                       "step": n, "id": x, "ever_in_store": sorted(ever)})
-            if st["op"] == "status" and any(o.endswith(".dir") for o in st["req"]):
-                # the index is validated (and cleared when stale) whenever a directory is queried
+            if st["op"] == "status" and st["req"]:
+                # the index is validated (and cleared when stale) by every query, whether or not it names a directory
                 for d in dump["dirs"]:
                     ctx.oracle(d in now, case, {"why": "after a status query the index still holds a directory that is not in the store",
                                                 "step": n, "dir": d})
